@@ -1505,6 +1505,50 @@ pub fn gen(ctx: &Ctx, emit: &mut dyn FnMut(String)) {
         let c = *rng.pick(&["le,8,32,5", "le,4,32,4", "be,2,32,3", "le,1,64,2", "be,8,64,5"]);
         emit(format!("c01 expr - {c} {}", hex(&b)));
     }
+    // ---- 4a. stack-shaped programs: k boundary constants (incl. multiples of 2^(8*addr_size), which
+    // truncate to 0 / -1 / sign boundaries at smaller address sizes) then unary/binary operators
+    let binops: &[u8] = &[0x1a, 0x1b, 0x1c, 0x1d, 0x1e, 0x21, 0x22, 0x24, 0x25, 0x26, 0x27, 0x29, 0x2a, 0x2b, 0x2c, 0x2d, 0x2e];
+    let unops: &[u8] = &[0x19, 0x1f, 0x20, 0x06, 0x12, 0x13, 0x14, 0x16, 0x17];
+    for _ in 0..ctx.n(3000, 200_000) {
+        let asz = *rng.pick(&[1u64, 2, 4, 8]);
+        let mut b = Vec::new();
+        for _ in 0..(1 + rng.below(3)) {
+            let v = match rng.below(6) {
+                0 => (1u64 << (8 * asz).min(63)).wrapping_mul(1 + rng.below(3)),
+                1 => ((1u64 << (8 * asz - 1)) as u64).wrapping_sub(rng.below(2)),
+                2 => rng.below(3),
+                3 => if asz == 8 { u64::MAX } else { (1u64 << (8 * asz)) - 1 + (rng.below(2) << (8 * asz)) },
+                _ => rng.boundary_u64(),
+            };
+            match rng.below(3) {
+                0 => {
+                    b.push(0x0e);
+                    b.extend_from_slice(&v.to_le_bytes());
+                }
+                1 => {
+                    b.push(0x10);
+                    b.extend(uleb(v));
+                }
+                _ => {
+                    b.push(0x11);
+                    b.extend(sleb(v as i64));
+                }
+            }
+        }
+        for _ in 0..(1 + rng.below(3)) {
+            b.push(if rng.chance(3, 4) { *rng.pick(binops) } else { *rng.pick(unops) });
+        }
+        if rng.chance(1, 2) {
+            b.push(0x9f);
+        }
+        let c = match asz {
+            1 => "le,1,32,4",
+            2 => "be,2,32,3",
+            4 => "le,4,32,4",
+            _ => "le,8,64,5",
+        };
+        emit(format!("c01 expr - {c} {}", hex(&b)));
+    }
     // ---- 4b. MacroIter, exact trace vs the Model: all strings of length <= 2 (3 thorough) over an
     // alphabet of the interesting bytes, and random entry sequences with boundary operands
     let alpha: &[u8] = &[0, 1, 2, 3, 4, 5, 7, 0x0b, 0x0c, 0x0d, 0x61, 0x7f, 0x80, 0xff];
